@@ -361,3 +361,20 @@ for _pid, _ts in EXTRA3.items():
 for _pid, _ts in EXTRA2.items():
     PROPS[_pid]["extra_modules"] = sorted(set(PROPS[_pid].get("extra_modules", []) + ["Rough.Props.Extra2"]))
     PROPS[_pid]["theorems"] = PROPS[_pid]["theorems"] + ["Rough.Props.Extra2." + t for t in _ts]
+
+
+# end-to-end composition client ∘ server (Rough/Props/E2E.lean)
+for _pid in ("C01", "C02", "C03", "C09"):
+    PROPS[_pid]["extra_modules"] = sorted(set(PROPS[_pid].get("extra_modules", []) + ["Rough.Props.E2E"]))
+    PROPS[_pid]["theorems"] = PROPS[_pid]["theorems"] + ["Rough.Props.E2E.E2E_client_server"]
+
+# event-loop stream: process_events one call at a time against Model/EventLoop.lean
+_LOOP = {"args": ["evloop"], "shards_quick": 8, "shards_thorough": 16}
+for _pid in ("C08", "C09", "C15", "C18", "C19"):
+    PROPS[_pid]["streams"] = PROPS[_pid]["streams"] + [_LOOP]
+    PROPS[_pid]["ops"] = PROPS[_pid]["ops"] + ["loop"]
+    PROPS[_pid]["rule"] += ("; event loop: the real Server::process_events called ONE CALL AT A TIME on a real mio socket and health-check listener "
+                            "(batch_size 1,2,3,64 quick / +5,7 thorough): bursts of 0, 1, B, 16B-1, 16B, 16B+1, 32B-1, 32B, 32B+1, 48B+2 datagrams (valid classic / valid IETF / invalid from 4 sockets), "
+                            "arrivals between calls while a backlog exists, idle calls, 1..33 TCP connections pending behind one readiness event mixed with datagrams; after every call the replies per socket and "
+                            "the connections answered are recorded. L1 = by the end every socket got exactly one reply per valid request, every connection the fixed HTTP response, no call answered more than 16*batch_size datagrams; "
+                            "L2 = per call, reply destinations and connections answered equal Model/EventLoop.lean (edge-triggered readiness, backlog flag, 16-batch bound)")
